@@ -29,7 +29,10 @@ def predict_run(decls, check_rules, header, run):
             verdict = "rejected"
         else:
             for cell, decl in zip(row, decls):
-                guard, payload = fieldmodel.guards(decl, cell)
+                # in fixed-width data the cell is validated as stored: padded with blanks to the field width
+                guard, payload = fieldmodel.guards(decl, cell.ljust(decl["width"]) if fixed else cell)
+                if guard == "grey":
+                    raise ValueError("table contains a cell the statement does not settle: %r" % (cell,))
                 if guard == "empty-ok":
                     continue
                 if guard is not None:
